@@ -76,6 +76,12 @@ fn check_int(v: i32) -> Result<(), String> {
         if !is_invalid && m != FileMode::from(v as u16) {
             return Err(format!("From<i32>({v}) = {m:?}: neither invalid nor the 16-bit pattern"));
         }
+        // when the value is read as the 16-bit word (raw_mode() reports that word), its type and
+        // permission parts have to recombine to it like for any other word
+        let w = v as u16;
+        if m.raw_mode() == w && (m.file_type() != w & 0o170000 || m.permissions() != w & 0o7777) {
+            return Err(format!("From<i32>({v}) reports the word {w:#o} but file_type {:#o} / permissions {:#o} do not recombine to it", m.file_type(), m.permissions()));
+        }
     }
     Ok(())
 }
